@@ -89,6 +89,7 @@ def main():
         pipeline.__exit__()
         # 3. correspondence (and, if something is broken, the failing-input search)
         mod.run(res, a.tier, broken)
+        C.run_open_finding_programs(res)
         # 4. anything broken that the search did not turn into a concrete violation
         if broken and not any(not ni for (_, ni, _) in res.violations):
             res.violation("proof obligation / correspondence no longer checks", {"broken": broken}, no_input=True)
